@@ -3229,16 +3229,19 @@ Proof.
 Qed.
 Print Assumptions c02_quiescent_holds.
 
-(* ================================================================== C02: settle terminates (MY OWN ADDITION, partial)
+(* ================================================================== C02: settle terminates (the prover's own addition)
    The statement below is not pinned in ClientWakeSpec.v; it is the third part of C02 (poll_total
-   for the wake-driven runs): on reachable states the settle of `wstep` never reports WFuel. *)
+   for the wake-driven runs): on reachable states the settle of `wstep` never reports WFuel.
+   PROVED in ClientWakeSettles.v (c02_settles_holds), restated as C02_settles in Properties/C02.v;
+   this file only contributes the part described next. *)
 Definition stmt_c02_settles : Prop := forall c ops, wno_wrap ops -> settled c ops.
 
 (* What is proved: the flag `so_fuel` of a settle is raised ONLY by running out of rounds, never by
    a dispatch poll that ran out of fuel (`DFuel`), for EVERY state and every number of rounds.
-   What is missing for stmt_c02_settles: that `rounds_of s + length (st_inbox (tr s))` rounds cannot
+   What was missing here for stmt_c02_settles (supplied by ClientWakeSettles.v): that
+   `rounds_of s + length (st_inbox (tr s))` rounds cannot
    all be non-quiet on a reachable state, i.e. `~ all_noisy (rounds_of s + ...) s sobs0`.
-   Suggested measure (not carried out): 4 per call in PNew/PAcquiring/PAssigned, 2 per PAcqClosed,
+   Measure suggested at the time (for the proof as carried out see ClientWakeSettles.v): 4 per call in PNew/PAcquiring/PAssigned, 2 per PAcqClosed,
    1 per PAwaiting, 2 per queued request, 1 per queued cancellation / in-flight entry / inbox item,
    1 each for "some call is PNew", "terminal = None", "dispatch not finished"; every function of the
    round is non-increasing in it and a non-quiet round decreases it. *)
